@@ -11,6 +11,8 @@ mod g_sess;
 mod g_pipe;
 mod g_pad;
 mod g_auth;
+mod g_dest;
+mod e2e;
 
 use std::io::Write;
 use util::*;
@@ -32,6 +34,7 @@ fn group_by_name(name: &str) -> Option<Box<dyn Group>> {
         "pipe" => Some(Box::new(g_pipe::PipeGroup)),
         "pad" => Some(Box::new(g_pad::PadGroup)),
         "auth" => Some(Box::new(g_auth::AuthGroup)),
+        "dest" => Some(Box::new(g_dest::DestGroup)),
         _ => None,
     }
 }
